@@ -390,4 +390,187 @@ theorem record_eq_chain {σ α} (P : Producer σ α) (n fuel : Nat) (sub disp : 
     rw [wait_eq]
     simpa using this
 
+
+/-! ## the virtual-time run in general: dispose cut and spin limit -/
+
+
+/-- the producer's chain as the virtual-time scheduler really runs it next to the harness' dispose
+action: an action due at or after `disp` never runs (the dispose goes first and cancels it); the
+clock moves to the due time, or by one after more than 100 consecutive same-instant items (`k` is
+the spin counter); emissions pass the AutoDetachObserver. -/
+def chainSpin {σ α} (P : Producer σ α) (disp : Int) : Nat → Int → Nat → Int → σ → List (Int × Notif α)
+  | 0, _, _, _, _ => []
+  | n + 1, c, k, due, s =>
+    if due < disp then
+      let tk : Int × Nat := if due > c then (due, 0) else if k > 100 then (c + 1, 0) else (c, k)
+      let r := P.step s
+      let so := Sim.deliver tk.1 false r.emits
+      so.2 ++
+        (match r.escapes with
+         | some _ => []
+         | none =>
+           if so.1 then []
+           else
+             match r.next with
+             | none => []
+             | some (s', d) => chainSpin P disp n tk.1 (tk.2 + 1) (tk.1 + d.getD 0) s')
+    else []
+
+open Sim in
+theorem run_disp_first {σ α} (P : Producer σ α) (fuel : Nat) (c : Int) (k : Nat) (disp due : Int) (s : σ)
+    (o : List (Int × Notif α)) :
+    (run P fuel { clock := c, spin := k, queue := [(disp, .disp), (due, .prod s)], subscribed := true,
+                  stopped := false, out := o, escaped := none }).out = o := by
+  cases fuel with
+  | zero => rfl
+  | succ f =>
+    simp only [run]
+    cases f with
+    | zero => rfl
+    | succ f' =>
+      simp only [run, Bool.or_true, if_true]
+      cases f' <;> simp [run]
+
+open Sim in
+theorem run_general {σ α} (P : Producer σ α) (disp : Int) (fuel : Nat) :
+    ∀ (c : Int) (k : Nat) (due : Int) (s : σ) (o : List (Int × Notif α)),
+      (run P fuel { clock := c, spin := k, queue := enqueue [(disp, .disp)] (due, .prod s), subscribed := true,
+                    stopped := false, out := o, escaped := none }).out
+        = o ++ chainSpin P disp fuel c k due s := by
+  induction fuel with
+  | zero => intro c k due s o; simp [run, chainSpin]
+  | succ f ih =>
+    intro c k due s o
+    by_cases hd : due < disp
+    · have henq : enqueue [(disp, Act.disp)] (due, (Act.prod s : Act σ)) = [(due, Act.prod s), (disp, Act.disp)] := by
+        simp [enqueue, hd]
+      rw [henq]
+      simp only [run, chainSpin, hd, if_true, Bool.false_eq_true, if_false]
+      generalize htk : (if due > c then (due, 0) else if k > 100 then (c + 1, 0) else (c, k) : Int × Nat) = tk
+      obtain ⟨t, k'⟩ := tk
+      simp only
+      generalize hso : deliver t false (P.step s).emits = so
+      obtain ⟨stopped, o'⟩ := so
+      simp only
+      cases hesc : (P.step s).escapes with
+      | some e => simp
+      | none =>
+        simp only
+        cases stopped with
+        | true =>
+          simp only [if_true]
+          rw [run_disp_only P f _ disp rfl]; simp
+        | false =>
+          simp only [Bool.false_eq_true, if_false]
+          cases hn : (P.step s).next with
+          | none =>
+            simp only [schedule]
+            rw [run_disp_only P f _ disp rfl]; simp
+          | some sd =>
+            obtain ⟨s', d⟩ := sd
+            simp only [schedule]
+            rw [ih t (k' + 1) (t + d.getD 0) s' (o ++ o'), List.append_assoc]
+    · have henq : enqueue [(disp, Act.disp)] (due, (Act.prod s : Act σ)) = [(disp, Act.disp), (due, Act.prod s)] := by
+        simp [enqueue, hd]
+      rw [henq, run_disp_first P (f + 1) c k disp due s o]
+      simp [chainSpin, hd]
+
+open Sim in
+/-- the recording in general: subscribe at `0 ≤ sub < disp`, any fuel, dispose cut and spin included -/
+theorem record_eq_chainSpin {σ α} (P : Producer σ α) (fuel : Nat) (sub disp : Int) (h0 : 0 ≤ sub) (hlt : sub < disp) :
+    (record P (fuel + 1) sub disp).out =
+      match P.first with
+      | none => []
+      | some (s, d) => chainSpin P disp fuel sub 1 (sub + d.getD 0) s := by
+  have hq0 : enqueue (enqueue ([] : List (Int × Act σ)) (disp, .disp)) (sub, .sub) = [(sub, .sub), (disp, .disp)] := by
+    simp [enqueue, hlt]
+  have hclock : (if sub > 0 then (sub, 0) else if (0 : Nat) > 100 then ((0 : Int) + 1, 0) else ((0 : Int), (0 : Nat))) = (sub, 0) := by
+    by_cases h : sub > 0
+    · simp [h]
+    · have : sub = 0 := by omega
+      subst this; simp
+  simp only [record, hq0, run, hclock]
+  cases hfirst : P.first with
+  | none =>
+    simp only [schedule]
+    rw [run_disp_only P fuel _ disp rfl]
+  | some sd =>
+    obtain ⟨s, d⟩ := sd
+    simp only [schedule]
+    have := run_general P disp fuel sub (0 + 1) (sub + d.getD 0) s []
+    simpa using this
+
+/-- producers whose actions emit a terminal only last, and never re-schedule after one -/
+def WFP {σ α} (P : Producer σ α) : Prop :=
+  ∀ s, wfEmits (P.step s).emits = true ∧ (endsTerm (P.step s).emits = true → (P.step s).next = none)
+
+/-- dispose and spin never change WHAT is delivered, only when and how much: the notifications of
+the scheduler-run chain are a prefix of those of the isolated chain -/
+theorem chainSpin_prefix {σ α} (P : Producer σ α) (hP : WFP P) (disp : Int) (n : Nat) :
+    ∀ (c : Int) (k : Nat) (due t : Int) (s : σ),
+      ((chainSpin P disp n c k due s).map (·.2)) <+: ((chainFrom P n t s).map (·.2)) := by
+  induction n with
+  | zero => intro c k due t s; simp [chainSpin, chainFrom]
+  | succ n ih =>
+    intro c k due t s
+    simp only [chainSpin, chainFrom]
+    split
+    · obtain ⟨hwf, hterm⟩ := hP s
+      rw [deliver_wf _ _ hwf]
+      simp only [List.map_append, List.map_map]
+      have e1 : (List.map ((fun x => x.2) ∘ fun x => (((if due > c then (due, 0) else if k > 100 then (c + 1, 0) else (c, k)) : Int × Nat).1, x)) (P.step s).emits)
+          = (P.step s).emits := by simp [Function.comp_def]
+      have e2 : (List.map ((fun x => x.2) ∘ fun x => (t, x)) (P.step s).emits) = (P.step s).emits := by
+        simp [Function.comp_def]
+      rw [e1, e2]
+      apply List.prefix_append_right_inj _ |>.2
+      cases hesc : (P.step s).escapes with
+      | some e => simp
+      | none =>
+        simp only
+        cases hend : endsTerm (P.step s).emits with
+        | true => simp [hterm hend]
+        | false =>
+          simp only [Bool.false_eq_true, if_false]
+          cases hn : (P.step s).next with
+          | none => simp
+          | some sd => obtain ⟨s', d⟩ := sd; exact ih _ _ _ _ _
+    · simp
+
+theorem wfp_range (lo hi st : Int) : WFP (rangeP lo hi st) := by
+  intro ⟨cur, left, step⟩
+  cases left <;> simp [rangeP, wfEmits, endsTerm, Notif.isTerminal]
+
+theorem wfp_generate {α} (init : α) (f : GenFns α) : WFP (generateP init f) := by
+  intro ⟨first, state⟩
+  simp only [generateP]
+  split
+  · simp [wfEmits, endsTerm, Notif.isTerminal]
+  · split <;> simp [wfEmits, endsTerm, Notif.isTerminal]
+
+theorem wfp_gwrt {α} (init : α) (f : GenFns α) (tm : α → Except Err Int) : WFP (gwrtP init f tm) := by
+  intro q
+  simp only [gwrtP, gwrtStep]
+  cases q.hasResult <;> simp only [Bool.false_eq_true, if_false, if_true, List.nil_append, List.cons_append] <;>
+    (split
+     · simp [wfEmits, endsTerm, Notif.isTerminal]
+     · split
+       · simp [wfEmits, endsTerm, Notif.isTerminal]
+       · simp [wfEmits, endsTerm, Notif.isTerminal]
+       · split
+         · simp [wfEmits, endsTerm, Notif.isTerminal]
+         · simp [wfEmits, endsTerm, Notif.isTerminal])
+
+theorem wfp_timer (d : Int) : WFP (timerP d) := by
+  intro s; simp [timerP, wfEmits, endsTerm, Notif.isTerminal]
+
+theorem wfp_repeat {α} (v : α) (count : Option Int) : WFP (repeatValueP v count) := by
+  intro s
+  cases s with
+  | outer l =>
+    cases l with
+    | none => simp [repeatValueP, wfEmits, endsTerm]
+    | some k => cases k <;> simp [repeatValueP, wfEmits, endsTerm, Notif.isTerminal]
+  | inner l => simp [repeatValueP, wfEmits, endsTerm, Notif.isTerminal]
+
 end Pure.Sources
